@@ -324,3 +324,24 @@ let () =
       let v = (try p_vlevel toks with Parse m -> failwith ("parse: " ^ m)) in
       hex_of_bytes (enc_message !cur_be (the_msg ()) (bytes_of_hex hdrbg) v)
       | _ -> failwith "encv")
+
+(* ---- C05: trait-level size formula evaluated on a value tree ---- *)
+let () =
+  register "traitv" (function rest ->
+      let toks = ref rest in
+      let v = (try p_vlevel toks with Parse m -> failwith ("parse: " ^ m)) in
+      let m = the_msg () in
+      let Level (_, gs, _) = m.m_level in
+      let counts = counts_gs gs O [v] in
+      let total = data_total v in
+      Printf.sprintf "counts=%s total=%s size=%s"
+        (String.concat "," (List.map string_of_z counts)) (string_of_z total)
+        (string_of_z (trait_size m counts total)));
+  (* flat group size in the C++ types: fgs <n type> <bl type> <dim size> <n> <bl> [legacy] *)
+  register "fgs" (function nt :: blt :: dsz :: n :: bl :: rest ->
+      let d = { d_size = z_of_string dsz; d_bl_off = Z0; d_bl_t = ity_of_string blt; d_n_off = Z0;
+                d_n_t = ity_of_string nt; d_fills = [] } in
+      let r = (if rest = ["legacy"] then LegacyMsg.flat_group_size d (z_of_string n) (z_of_string bl)
+               else flat_group_size d (z_of_string n) (z_of_string bl)) in
+      opt string_of_z r
+    | _ -> failwith "fgs")
